@@ -51,6 +51,28 @@ AVOID2 = {
  'C19': 'the early-exit test of the solve loop',
  'C20': 'the simplify flag of AndRegImm in the interpreter interval evaluator',
 }
+AVOID3 = {
+ 'C01': 'graph flattening / parent counting in SsaTape::new',
+ 'C02': 'the SIMD `and` sequence of the x86_64 JIT',
+ 'C03': 'impl Transformable for Interval',
+ 'C04': 'the CopyReg emitted by VmData::simplify for a resolved reg/imm choice',
+ 'C05': 'impl Transformable for Grad',
+ 'C06': 'the scratch z coordinate in Worker::render_tile_pixels (2D)',
+ 'C07': 'the negative-value test in the voxel column search',
+ 'C08': 'the vertex transform back to model space in Octree::build',
+ 'C09': 'the no-pool branch of render_tiles',
+ 'C10': 'BulkVmEval::resize_slots',
+ 'C11': 'Interval::quadrant',
+ 'C12': 'impl PartialEq for TreeOp',
+ 'C13': 'the identity shortcut / matrix composition in Tree::remap_affine',
+ 'C14': 'the transform decision in ShapeTracingEval::eval_raw',
+ 'C15': 'impl From<RegOp> for BytecodeOp',
+ 'C16': 'the named Plane constants',
+ 'C17': 'the (Dynamic, Tree) operator overload',
+ 'C18': 'the changed flag of Canvas2::zoom',
+ 'C19': 'where fixed parameters are written into the point scratch (Solver::new / get_err)',
+ 'C20': 'saving / restoring the choice pointer around calls in the x86_64 point JIT',
+}
 for pid in (ids or props):
     p = props[pid]
     avoid = ''
@@ -60,6 +82,12 @@ for pid in (ids or props):
         avoid = (f"\nTwo earlier experiments already used (1) {AVOID[pid]} and (2) {AVOID2[pid]}. Pick a mechanism different from both, in a different function, "
                  "ideally exercising a clause of the property statement or a part of its quantifier that neither of them touched. Prefer a change whose trigger is rare "
                  "(a specific value, count, size, order or history) over one that most inputs expose.\n")
+    if 'seed4' in root:
+        avoid = (f"\nThree earlier experiments already used (1) {AVOID[pid]}, (2) {AVOID2[pid]} and (3) {AVOID3[pid]}. Pick a mechanism different from all three, in a different function. "
+                 "Prefer a change whose trigger depends on SCALE or a BOUNDARY: a count, length, depth or index at or beyond a threshold (for example more than 8, 12, 64, 255, 256 or 65535 of something; "
+                 "an image, grid or slice size that is exactly a multiple, or one more than a multiple, of a tile or SIMD width; the largest or smallest allowed value of a parameter), "
+                 "or on shared infrastructure that the property only reaches indirectly (LRU, variable map, tape data, operand encoding, caches, workspaces). "
+                 "The existing tests must still pass, so the trigger has to lie beyond what they exercise.\n")
     open(f'{root}/prompt_{pid}.txt', 'w').write(f"""You are helping to evaluate a verification suite for the Rust library mkeeter/fidget (implicit-surface math expressions compiled to tapes, evaluated by an interpreter VM or an x86_64 JIT, rendered or meshed). You do NOT see the verification suite. Your job is to write ONE realistic, subtle breaking change to the library.
 
 Your private scratch copy of the repository is the git worktree at {root}/{pid} (work ONLY there; never touch /repo or /verif; do not commit). The machine is offline: always pass --offline to cargo and set CARGO_TARGET_DIR={root}/{pid}/target for every cargo command.
